@@ -15,7 +15,8 @@ RULE = ("E1, complete products: ('len', n, content class, key, variant) = every 
         "for len <= 48 and boundary positions above; ('ckdup', ...) = payloads containing the customer key's bytes outside the slot; ('neg', ...) = reference-built frames with every wrong marker value, every "
         "single-bit CRC error, payload bit errors, wrong customer key, and frames made under another key. ('reuse', variant, ops) = every sequence of 2..3 operations (encrypt 3 payloads, decrypt 2 frames, decrypt a damaged frame) on ONE live encryptor object. Oracle: ciphertext byte-identical "
         "to the reference container (CBC, zero IV, 'B', len+2, 1..16 zeros, payload, CRC-16), decrypt(encrypt(p)) == p, negatives raise. "
-        "Distinct = distinct case tuples; non-trivial = all (each runs real encrypt and/or decrypt).")
+        "Distinct = distinct case tuples; non-trivial = all (each runs real encrypt and/or decrypt)."
+        " Added: ('codebyte', position, value) every byte value at the first / middle / last position of a security code, ('codelen', n) other code lengths; wrong-key negatives are repeated after the rightful key holder (another object) has unwrapped the same frame.")
 ASSUMPTIONS = [
     "behaviour for frames with non-zero padding or an inconsistent length byte is left open by the statement and not judged here",
     "a frame made under another key must be refused whenever the reference unwrap refuses the same bytes (differential)",
